@@ -225,7 +225,8 @@ def run_task(task):
                     ok_all = False
                     d2 = dict(data)
                     d2['inst'] = rp.inst_to_data(rp.concretize_inst(run.inst, mdl))
-                    res['cex'].append({'tag': 'text/%s/%s' % (name.split(' (')[0], 'inner' if len(faults) and _inner(snaps, faults[0][0]) else 'outer'),
+                    res['cex'].append({'tag': 'text/%s/%s/%s' % (name.split(' (')[0], 'inner' if len(faults) and _inner(snaps, faults[0][0]) else 'outer',
+                                                                 'limit-stop' if any(f == 'LimitStop' for _, f in faults) else faults[0][1].replace(' ', '')),
                                        'what': '%s; schedule %s persistent %s' % (name, schedule, persistent), 'data': d2})
             if ok_all:
                 res['discharged'] += 1
